@@ -13,7 +13,7 @@ from rnaverif.runner import D, HarnessError, ShardResult, WORK_DIR, run_hypothes
 PROP_ID = "C05"
 LEVEL = "exploration"
 RULE = (
-    "Corpus structures (quick: 10 small files; thorough: all that fit) under Hypothesis-drawn transformations: "
+    "Corpus structures (quick: 12 files; thorough: all that fit) under Hypothesis-drawn transformations: "
     "(1) proper rotation (uniform quaternion or one of the 24 exact axis permutations) + translation up to +-500 A; "
     "(2) permutation of the atoms inside every residue; (3) order-preserving chain renaming and per-chain strictly "
     "increasing residue renumbering (constant offset when gap detection is on); (4) re-serialisation of the same "
@@ -63,7 +63,8 @@ def normalise(s2, ident_map=None, chain_map=None):
         if chain_map is None:
             return text
         inv = {v: k for k, v in chain_map.items()}
-        return re.sub(r">strand_(\S*)", lambda m: ">strand_" + inv.get(m.group(1), m.group(1)), text)
+        # chain names may be blank or contain spaces (PDB files with an empty chain column)
+        return re.sub(r">strand_([^\n]*)", lambda m: ">strand_" + inv.get(m.group(1), m.group(1)), text)
 
     out["dotBracket"] = unchain(s2.dotBracket)
     out["extendedDotBracket"] = unchain(s2.extendedDotBracket)
@@ -268,7 +269,8 @@ def st_transform(files):
     return st.fixed_dictionaries({
         "kind": st.just("transform"),
         "file": st.sampled_from(files),
-        "rot": st.one_of(st.just(np.eye(3).tolist()), gen3d.st_rigid().map(lambda rt: rt[0].tolist())),
+        "rot": st.one_of(st.just(np.eye(3).tolist()), gen3d.st_rigid().map(lambda rt: rt[0].tolist()),
+                         gen3d.st_rigid().map(lambda rt: rt[0].tolist())),
         "shift": st.one_of(st.just([0.0, 0.0, 0.0]), st.lists(st.floats(-500, 500), min_size=3, max_size=3)),
         "atom_perm_seed": st.one_of(st.none(), st.integers(0, 2 ** 31)),
         "rename_chains": st.sampled_from(["", "", "Q", "z", "0"]),
@@ -279,7 +281,7 @@ def st_transform(files):
 
 def plan(tier, seed):
     if tier == "quick":
-        files = corpus.SMALL
+        files = corpus.SMALL + ["1ehz-assembly-1.cif", "488d.pdb"]
         specs = [{"kind": "transform", "files": files, "examples": 40, "seed": seed * 1000 + k} for k in range(16)]
         specs += [{"kind": "formats", "files": [f]} for f in files]
     else:
